@@ -87,10 +87,11 @@ def supported(cfg, world, t, top=True, _seen=None) -> bool:
 
 
 class Gen:
-    def __init__(self, rng: random.Random, max_depth=3, big=False):
+    def __init__(self, rng: random.Random, max_depth=3, big=False, no_any=False):
         self.rng = rng
         self.max_depth = max_depth
         self.big = big
+        self.no_any = no_any  # no Any-typed positions and no untyped fields (round-trip scope)
 
     # ------------------------------------------------------------ leaves
     def g_int(self):
@@ -154,7 +155,7 @@ class Gen:
         names = r.sample(FIELD_NAMES, r.randint(0, 4))
         fields = []
         for n in names:
-            untyped = allow_untyped and kind == "attrs" and r.random() < 0.1
+            untyped = allow_untyped and not self.no_any and kind == "attrs" and r.random() < 0.1
             ty = None if untyped else self.type(w, depth=r.randint(0, self.max_depth - 1), max_cls=ci, field=(kind != 'td'))
             f = {"name": n, "alias": n.lstrip("_") if kind == "attrs" else n, "ty": ty, "dflt": None, "init": True,
                  "required": True, "kw_only": False}
@@ -201,7 +202,7 @@ class Gen:
             c = r.random()
             if c < 0.55:
                 return r.choice(PRIMS)
-            if c < 0.65 and allow_any:
+            if c < 0.65 and allow_any and not self.no_any:
                 return "any"
             if c < 0.78 and w["enums"]:
                 return ("enum", r.randrange(len(w["enums"])))
